@@ -94,3 +94,42 @@ def real_clean(code: str) -> str:
 
 def strip_render_hints(body):
     return [{"k": s["k"], "n": s["n"]} if s["k"] != "scope" else {"k": "scope", "b": strip_render_hints(s["b"])} for s in body]
+
+
+def walrus_program(rng):
+    """a function with `w = 1` directly followed by `if w:` at its top level, other reads / assignments of `w` around it (same level
+    and enclosed scopes); returns (code, body in the model's terms with the `if` test as a read)"""
+    before, after = gen_body(rng, 1), gen_body(rng, 1)
+    for part in (before, after):
+        for s in part:
+            if s["k"] != "scope" and rng.random() < 0.35:
+                s["n"] = "w"
+        for s in part:
+            if s["k"] == "scope":
+                for t in s["b"]:
+                    if t["k"] != "scope" and rng.random() < 0.4:
+                        t["n"] = "w"
+    # no other `w = ..` directly followed by a plain read that would be rendered as an `if`: reads are rendered as print(..)
+    counter = [0]
+    code = "def f():\n" + render(before, 1, counter) + "    w = 1\n    if w:\n        pass\n" + render(after, 1, counter) + "    return None\n"
+    return code
+
+
+def walrus_body(code: str):
+    """the body of `f` with the `if w:` test as a read of `w`"""
+    def stmts(block):
+        out = []
+        for st in block.body:
+            if isinstance(st, cst.FunctionDef):
+                out.append({"k": "scope", "b": stmts(st.body)}); continue
+            if isinstance(st, cst.If):
+                out.append({"k": "read", "n": st.test.value}); continue
+            for small in st.body:
+                if isinstance(small, cst.Assign):
+                    out.append({"k": "assign", "n": small.targets[0].target.value})
+                elif isinstance(small, cst.Expr) and isinstance(small.value, cst.Call):
+                    out.append({"k": "read", "n": small.value.args[0].value.value})
+                elif isinstance(small, cst.Expr) and isinstance(small.value, cst.Lambda):
+                    out.append({"k": "scope", "b": [{"k": "read", "n": el.value.value} for el in small.value.body.elements]})
+        return out
+    return stmts(cst.parse_module(code).body[0].body)
